@@ -1136,6 +1136,7 @@ UNMODELLED_RULES: List[Tuple[str, str]] = [
     (r"^The literal from the subset '.*' is not contained in the set", "unmodelled:constant-subset"),
     (r"^The value from the subset '.*' is not contained in the set", "unmodelled:constant-subset"),
     (r"can not be inherited in the class .* due to the diamond inheritance", "unmodelled:diamond-method"),
+    (r"^The base '.*' has been listed more than once", "unmodelled:duplicate-base"),
     (r"^The translation of the default value to the intermediate layer has not been implemented", "unmodelled:default-value"),
 ]
 
@@ -1205,6 +1206,77 @@ def render_mm(m: Any) -> str:
     return text.replace(f'    def __init__(self) -> None:\n        """{_CUT}"""', "    pass")
 
 
+#: Member layouts of a class body.  ``mm.render`` always writes properties, methods, ``__init__`` ("PMI"); the front end
+#: keeps the members in SOURCE order (``parse.Class.methods`` includes ``__init__`` at its place), so a loop over the
+#: members of an ancestor that stops/skips at the wrong place shows only with another layout.  The order WITHIN the
+#: properties and within the methods is kept (it is part of ``A``: constructor arguments follow the property order), so the
+#: abstract value of the text does not change.  P = the properties, M = the methods, I = ``__init__``;
+#: "split": P, first method, I, other methods; "mixed": properties and methods alternate, I after the first method.
+LAYOUTS = ["PMI", "PIM", "IPM", "IMP", "MIP", "MPI", "split", "mixed"]
+
+
+def _layout_units(layout: str, props: List[str], methods: List[str], init: List[str]) -> List[str]:
+    if layout == "split":
+        return props + methods[:1] + init + methods[1:]
+    if layout == "mixed":
+        out: List[str] = []
+        for k in range(max(len(props), len(methods))):
+            out += props[k : k + 1] + methods[k : k + 1]
+            if k == 0:
+                out += init
+        return out if (props or methods) else list(init)
+    groups = {"P": props, "M": methods, "I": init}
+    return [u for g in layout for u in groups[g]]
+
+
+def relayout(text: str, layout: Any) -> str:
+    """
+    The same meta-model with the members of its classes written in another order.
+
+    ``layout``: a name of ``LAYOUTS`` for every class, or ``{class name: layout}`` (other classes are left alone).
+    Works on the text (``ast`` positions): a member is a property with its docstring or a function with its decorators;
+    enumerations, constrained primitives and class bodies with other statements are left as they are.
+    """
+    try:
+        mod = ast.parse(text)
+    except (SyntaxError, ValueError):
+        return text
+    lines = text.split("\n")
+    for node in sorted((n for n in mod.body if isinstance(n, ast.ClassDef)), key=lambda n: -n.lineno):
+        lay = layout.get(node.name) if isinstance(layout, dict) else layout
+        if lay is None or lay == "PMI":
+            continue
+        if any(isinstance(b, ast.Name) and (b.id == "Enum" or b.id in PRIM_SOURCE_NAMES) for b in node.bases):
+            continue
+        body = list(node.body)
+        if body and _is_str_expr(body[0]):
+            body = body[1:]
+        units: List[Tuple[str, int]] = []  # (kind, first line)
+        ok = True
+        for k, st in enumerate(body):
+            if isinstance(st, ast.AnnAssign):
+                units.append(("P", st.lineno))
+            elif isinstance(st, ast.FunctionDef):
+                first = min([st.lineno] + [d.lineno for d in st.decorator_list])
+                units.append(("I" if st.name == "__init__" else "M", first))
+            elif _is_str_expr(st) and k > 0 and isinstance(body[k - 1], ast.AnnAssign):
+                pass  # the docstring of the property before it
+            else:
+                ok = False
+        if not ok or not units:
+            continue
+        end = node.end_lineno or len(lines)
+        chunks: Dict[str, List[str]] = {"P": [], "M": [], "I": []}
+        for (kind, first), nxt in zip(units, [u[1] for u in units[1:]] + [end + 1]):
+            chunk = lines[first - 1 : nxt - 1]
+            while chunk and chunk[-1].strip() == "":
+                chunk.pop()
+            chunks[kind].append("\n".join(chunk))
+        ordered = _layout_units(lay, chunks["P"], chunks["M"], chunks["I"])
+        lines[units[0][1] - 1 : end] = "\n\n".join(ordered).split("\n")
+    return "\n".join(lines)
+
+
 def clone(base: Any, freeze: bool = True, kw: bool = False) -> Any:
     mm = _mm()
     m = copy.deepcopy(base)
@@ -1229,6 +1301,12 @@ def _case_variants(name: str) -> List[str]:
             out.append(v)
     return out
 
+
+#: mutator kinds whose checks walk over the members of a class / of its ancestors: also run with another member layout
+_LAYOUT_SENSITIVE = ("redeclared-", "ctor-missing", "inherited-clash", "dup-method", "member-clash", "reserved-method")
+#: ... except where the verdict is the same but the FIRST error of the class body depends on the source order of the members of
+#: different kinds, which the abstract value does not carry (one error per class: the duplicate property or the clash)
+_LAYOUT_DEPENDENT = ("dup-property-and-clash",)
 
 Entry = Tuple[Any, str, str, Callable[[Any], None]]  # (expected rule | "valid" | "?" | frozenset, label "kind:site", mode, fn)
 
@@ -1373,7 +1451,9 @@ def catalogue(base: Any, T: Dict[str, Any], rng: Any, n_reserved: int = 2) -> Li
                 m.cls(a).methods.append(meth("zz_member"))
                 m.cls(child).props.append(mm.Prop("zz_member", O(P("int"))))
 
-            add("redeclaredProperty", f"redeclared-property-vs-method-{kind}:{child}<{a}", cross, "frozen")
+            # "derived": the constructor of the child initialises the new property, so the re-declaration is the ONLY broken rule
+            # (with a frozen constructor a front end that misses the re-declaration would still reject: not initialised)
+            add("redeclaredProperty", f"redeclared-property-vs-method-{kind}:{child}<{a}", cross, "derived")
 
             def both_methods(m: Any, child: str = child, a: str = a) -> None:
                 m.cls(a).methods.append(meth("zz_member"))
@@ -1819,6 +1899,96 @@ def fixed_models() -> List[Tuple[str, Any]]:
     return out
 
 
+#: (kind of the member in the ancestor, kind of the member of the same name in the descendant, broken rule)
+MEMBER_ORDER_KINDS = [
+    ("method", "property", "redeclaredProperty"),
+    ("property", "method", "redeclaredMethod"),
+    ("method", "method", "redeclaredMethod"),
+    ("property", "property", "redeclaredProperty"),
+]
+_CHILD_LAYOUTS = ["PMI", "IPM", "MIP"]
+
+
+def member_order_models(thorough: bool) -> List[Tuple[str, str, str, Dict[str, Any]]]:
+    """
+    ``(label, source, expected rule | "valid", A)`` — seed independent.
+
+    An inherited member declared again, across kinds (method -> property, property -> method, and the same kind), across
+    distance (every pair descendant < ancestor of a chain, a diamond and a two-parent forest: parent, grandparent, the top
+    and the arms of a diamond, the second of two unrelated parents) and for every ORDER of the members in the ancestor and
+    in the descendant: the member first / last of its kind, before / after ``__init__``, first / last member of the class
+    body (``LAYOUTS``).  Only the re-declaration rule is broken (the constructors fit), except property -> property, where
+    the name occurs twice among the stacked properties.  The designed expectation of every model is "rejected" with the
+    rule of its kind; the look-alikes (another name in the descendant; the same name in a sibling) are valid.
+
+    Quick: all 16 (position x ancestor layout) combinations x 4 kinds on one parent pair, 2 rotating combinations (1 for the
+    same-kind pairs) for every other (pair, kind); thorough: all 48 combinations for the cross-kind pairs, 12 for the others.
+    """
+    mm = _mm()
+    P, O = mm.Prim, mm.OptionalOf
+    fm = dict(fixed_models())
+
+    def meth(name: str) -> Any:
+        return mm.Method(name, [], P("bool"), impl_specific=True)
+
+    combos = [(tpos, la, lc) for tpos in ("first", "last") for la in LAYOUTS for lc in _CHILD_LAYOUTS]
+    out: List[Tuple[str, str, str, Dict[str, Any]]] = []
+    k = 0
+    for sname in ("chain3", "diamond", "forest"):
+        base = fm[sname]
+        for child in [c.name for c in base.classes]:
+            for a in mm.ancestors(base, child):
+                full = k < len(MEMBER_ORDER_KINDS)  # the first pair: a parent and its child in the chain
+                for ak, ck, rule in MEMBER_ORDER_KINDS:
+                    if thorough:
+                        chosen = combos if ak != ck else combos[k % 4 :: 4]
+                    elif full:
+                        chosen = [(tpos, la, _CHILD_LAYOUTS[(i + k) % 3]) for i, (tpos, la) in enumerate((t, l) for t in ("first", "last") for l in LAYOUTS)]
+                    else:
+                        chosen = [combos[(5 * k + 17 * j) % len(combos)] for j in range(2 if ak != ck else 1)]
+                    k += 1
+                    for tpos, la, lc in chosen:
+                        m = clone(base, freeze=(ak == "property" and ck == "property"))
+                        A, C = m.cls(a), m.cls(child)
+                        if ak == "method":
+                            tname = "zz_member"
+                            A.methods.extend([meth("zz_other"), meth(tname)] if tpos == "last" else [meth(tname), meth("zz_other")])
+                        else:
+                            tname = A.props[0].name if tpos == "first" else A.props[-1].name
+                            A.methods.append(meth("zz_other"))
+                        if ck == "method":
+                            C.methods.extend([meth("zz_own"), meth(tname)] if tpos == "last" else [meth(tname), meth("zz_own")])
+                        elif ak == "property":
+                            C.props.append(copy.deepcopy([p for p in A.props if p.name == tname][0]))
+                        else:
+                            C.props.append(mm.Prop(tname, O(P("int"))))
+                        text = relayout(render_mm(m), {a: la, child: lc})
+                        out.append((f"member-order-{ak}-to-{ck}:{sname}:{child}<{a}:{tpos}:{la}:{lc}", text, rule, abstract(m)))
+    # ---- valid look-alikes: another name in the descendant; the same name in a sibling (no common descendant); plain bases
+    for i, la in enumerate(LAYOUTS):
+        base = fm["chain3"]
+        names = [c.name for c in base.classes]
+        m = clone(base, freeze=False)
+        m.cls(names[0]).methods.extend([meth("zz_other"), meth("zz_member")])
+        m.cls(names[-1]).props.append(mm.Prop("zz_member_too", O(P("int"))))
+        m.cls(names[-1]).methods.append(meth("zz_other_too"))
+        out.append((f"member-order-valid-other-name:chain3:{la}", relayout(render_mm(m), la), "valid", abstract(m)))
+        base = fm["fork"]
+        names = [c.name for c in base.classes]
+        m = clone(base, freeze=False)
+        m.cls(names[1]).methods.extend([meth("zz_member"), meth("zz_other")])
+        m.cls(names[2]).props.append(mm.Prop("zz_member", O(P("int"))))
+        m.cls(names[3]).methods.append(meth(m.cls(names[0]).props[0].name))  # the unrelated root: a method named like a property elsewhere
+        out.append((f"member-order-valid-sibling:fork:{la}", relayout(render_mm(m), la), "valid", abstract(m)))
+        base = fm["diamond"]
+        m = clone(base, freeze=False)
+        for j, c in enumerate(m.classes):
+            if j > 0:  # a method of the top of a diamond can not be inherited over both arms (a check outside of C06)
+                c.methods.append(meth(f"zz_m{j}"))
+        out.append((f"member-order-valid-base:diamond:{la}", relayout(render_mm(m), la), "valid", abstract(m)))
+    return out
+
+
 def c06_features() -> Any:
     mm = _mm()
     ft = mm.Features()
@@ -2025,11 +2195,23 @@ def _streams(ctx: Ctx, with_model: bool) -> None:
     thorough = ctx.tier == "thorough"
     rotation = [0]
 
+    layout_rotation = [0]
+
+    def next_layout() -> str:
+        layout_rotation[0] += 1
+        return LAYOUTS[1 + layout_rotation[0] % (len(LAYOUTS) - 1)]  # never the layout of mm.render itself
+
     def add_base(stream: str, m: Any) -> bool:
         if m.constrained_primitives or any(c.ctor is not None or c.impl_specific for c in m.classes):
             ctx.hit("skipped:base-not-expressible")
             return False
-        B.add(stream, render_mm(m), rule="valid", label="base:", A=abstract(m))
+        text, A = render_mm(m), abstract(m)
+        B.add(stream, text, rule="valid", label="base:", A=A)
+        if len(B.items) % 8 == 0:
+            # the members of every class in another order: a valid model stays valid
+            lay = next_layout()
+            B.add(stream, relayout(text, lay), rule="valid", label="base@" + lay + ":", A=A)
+            ctx.hit("layout:" + lay)
         return True
 
     def add_mutants(stream: str, m: Any, entries: Sequence[Entry]) -> None:
@@ -2037,7 +2219,13 @@ def _streams(ctx: Ctx, with_model: bool) -> None:
             mut = build(m, [e])
             if mut is None:
                 continue
-            B.add(stream, render_mm(mut), rule=e[0], label=e[1], A=abstract(mut))
+            text, A = render_mm(mut), abstract(mut)
+            B.add(stream, text, rule=e[0], label=e[1], A=A)
+            if kind_of(e[1]).startswith(_LAYOUT_SENSITIVE) and kind_of(e[1]) not in _LAYOUT_DEPENDENT:
+                # the checks on the members of a class and of its ancestors run over the members in source order
+                lay = next_layout()
+                B.add(stream, relayout(text, lay), rule=e[0], label=kind_of(e[1]) + "@" + lay + ":" + e[1].split(":", 1)[-1], A=A)
+                ctx.hit("layout:" + lay)
 
     def rotate_rules(entries: Sequence[Entry], n: int, rng: Any) -> List[Entry]:
         """One mutator (random site) for each of the next ``n`` rule ids of a rotation that runs through all streams."""
@@ -2068,6 +2256,11 @@ def _streams(ctx: Ctx, with_model: bool) -> None:
                 continue
             if any(c["ctor"] and len({a["name"] for a in c["ctor"]}) != len(c["ctor"]) for c in A["classes"]):
                 ctx.hit("skipped:double-with-duplicate-ctor-argument")  # a known crash of the front end, not a C06 matter
+                continue
+            if any(len(set(c["parents"])) != len(c["parents"]) for c in A["classes"]):
+                # two mutators added the same base to one class: the parse stage reports "listed more than once" (a check
+                # outside of C06, added by a later repair of the front end) before any structural rule is looked at
+                ctx.hit("skipped:double-with-duplicate-base")
                 continue
             B.add(stream, text, rule="?", label=f"double:{e1[1]} + {e2[1]}", A=A)
 
@@ -2104,6 +2297,18 @@ def _streams(ctx: Ctx, with_model: bool) -> None:
                 chosen = select([e for e in entries if kind_of(e[1]) in window], det, 1)
             add_mutants("fixed", m, chosen)
             add_doubles("fixed", m, entries, det, 40 if thorough else 5)
+    B.run()
+
+    # ---- 2b. inherited members declared again: kinds x distances x member orders (seed independent)
+    for label, text, rule, A in member_order_models(thorough):
+        B.add("member-order", text, rule=rule, label=label, A=A)
+        parts = label.split(":")
+        if len(parts) >= 6:
+            ctx.hit("member-order:" + parts[0].replace("member-order-", "") + ":target-" + parts[3])
+            ctx.hit("member-order:ancestor-layout:" + parts[4])
+            ctx.hit("member-order:descendant-layout:" + parts[5])
+        if len(B.items) > 400:
+            B.run()
     B.run()
     hierarchies = list(mm.enumerate_hierarchies(max_classes=4, abstract_mixes=False, all_orders_up_to=4 if thorough else 0))
     if thorough:
@@ -2157,7 +2362,11 @@ _RULE_NOTE = (
     "inputs are meta-model source texts: corpus + the mutator catalogue (one mutator per rule id x site, valid look-alikes, "
     "double mutants; quick: every mutator kind once on the diamond model and a quarter of the kinds on 4 other fixed "
     "hierarchies, thorough: every site) + every class DAG shape up to 4 classes, each with mutators of the next rule ids "
-    "of a rotation over all rule ids + seeded random meta-models (2-7 classes, harness.mm.random_mm without constrained "
+    "of a rotation over all rule ids + member-order: an inherited member declared again, 4 kind pairs (method/property in the "
+    "ancestor x in the descendant) x every descendant-ancestor pair of a chain, a diamond and a two-parent forest x the member "
+    "first/last of its kind x 8 member layouts of the ancestor x 3 of the descendant (quick: all 16 position x layout combinations "
+    "on one parent pair, 1-2 rotating ones elsewhere; thorough: all), valid look-alikes; mutants of the member checks and every "
+    "eighth base model also with the members of every class in another order + seeded random meta-models (2-7 classes, harness.mm.random_mm without constrained "
     "primitives) with rotated and sampled mutators, mm.mutants and the repository's own meta_model.py fixtures; every input "
     "is judged by the real front end, the Lean model (through extract -> wire) and the Python oracle; all inputs are counted "
     "as non-trivial (each is a complete meta-model), distinct by source text. rule:ctorMissing is unreachable in the front "
